@@ -9,6 +9,13 @@ from harness import meta
 from harness.ir import *  # pylint: disable=wildcard-import,unused-wildcard-import
 
 FRESH = 'u_fresh'
+# names of the unbound variable: an ordinary one, and ones that look like the
+# compiler's internal variables (the parser reserves the prefix x_)
+FRESH_NAMES = ['u_fresh', 'u_fresh', 'x_w', 'x_hi', 'x_12']
+
+
+def _Fresh(rng):
+  return rng.choice(FRESH_NAMES)
 
 
 def _Rules(prog):
@@ -28,7 +35,7 @@ def HeadUnbound(prog, rng):
   pi, ri = rng.choice(c)
   rule = p['preds'][pi]['rules'][ri]
   h = rng.choice([h for h in rule['head'] if not h['agg']])
-  h['e'] = Var(FRESH)
+  h['e'] = Var(_Fresh(rng))
   return p
 
 
@@ -39,7 +46,7 @@ def CmpUnbound(prog, rng):
   p = copy.deepcopy(prog)
   pi, ri = rng.choice(c)
   p['preds'][pi]['rules'][ri]['body'].append(
-      Cmp(Op('<', Var(FRESH), Lit(N(1)))))
+      Cmp(Op('<', Var(_Fresh(rng)), Lit(N(1)))))
   return p
 
 
@@ -78,11 +85,12 @@ def NegUnbound(prog, rng):
   pi, ri = rng.choice(c)
   rule = p['preds'][pi]['rules'][ri]
   e = rng.choice(edbs)
-  args = [(h['f'], Var(FRESH) if i == 0 else Var('w_%d' % i))
+  fresh = _Fresh(rng)
+  args = [(h['f'], Var(fresh) if i == 0 else Var('w_%d' % i))
           for i, h in enumerate(e['rules'][0]['head'])]
   rule['body'].append(Neg([Atom(e['name'], args)]))
   h = rng.choice([h for h in rule['head'] if not h['agg']])
-  h['e'] = Var(FRESH)
+  h['e'] = Var(fresh)
   return p
 
 
@@ -125,6 +133,42 @@ def NoBase(prog, rng):
         pred['rules'] = keep
         changed = True
   return p if changed else None
+
+
+def NoBaseReader(prog, rng):
+  """A recursion without a base case that the queried predicate Qnb reads
+  only under a negation, only inside an aggregating expression, or in one of
+  its several rules."""
+  p = NoBase(prog, rng)
+  if p is None:
+    return None
+  ms = [m for c in p['rec'] for m in c['members']]
+  by = {q['name']: q for q in p['preds']}
+  edbs = [q for q in p['preds'] if q['name'] not in ms and q['rules'] and
+          not q['rules'][0]['body'] and not q['inline']]
+  bad = [m for m in ms if not any(
+      not (meta.PredsRead({'rules': [r]}) & set(ms)) for r in by[m]['rules'])]
+  if not edbs or not bad:
+    return None
+  m = by[rng.choice(bad)]
+  e = rng.choice(edbs)
+  v = Var('v')
+  e_atom = Atom(e['name'], [(h['f'], v if i == 0 else Var('e_%d' % i))
+                            for i, h in enumerate(e['rules'][0]['head'])])
+  m_args = [(h['f'], Var('w_%d' % i)) for i, h in enumerate(m['rules'][0]['head'])]
+  form = rng.choice(['neg', 'agg', 'multi'])
+  if form == 'neg':
+    rules = [Rule([('col0', v, '')], [e_atom, Neg([Atom(m['name'], m_args)])])]
+  elif form == 'agg':
+    rules = [Rule([('col0', v, ''), ('col1', Var('s'), '')],
+                  [e_atom, Unify(Var('s'), AggE('Max', Lit(N(1)),
+                                                [Atom(m['name'], m_args)]))])]
+  else:
+    rules = [Rule([('col0', v, '')], [e_atom]),
+             Rule([('col0', Var('w_0'), '')], [Atom(m['name'], m_args)])]
+  p['preds'].append(Pred('Qnb', rules))
+  p['no_base_reader_form'] = form
+  return p
 
 
 def FunctorBadArg(prog, rng):
@@ -191,10 +235,11 @@ def AnnotateMissing(prog, rng):
   p = copy.deepcopy(prog)
   # @Ground of an undefined predicate declares an external table (legal);
   # @Recursive is not validated by the tool and is left out of the catalogue.
-  ann = rng.choice(['@OrderBy(Nope7, "col0");', '@Limit(Nope7, 1);',
-                    '@NoInject(Nope7);', '@With(Nope7);', '@NoWith(Nope7);'])
+  name = rng.choice(['Nope7', 'Top_sales', 'No_such_x', 'Top_Sale', 'Nope'])
+  ann = rng.choice(['@OrderBy(%s, "col0");', '@Limit(%s, 1);',
+                    '@NoInject(%s);', '@With(%s);', '@NoWith(%s);']) % name
   p['ann'] = list(p.get('ann', [])) + [ann]
-  p['annpreds'] = list(p.get('annpreds', [])) + ['Nope7']
+  p['annpreds'] = list(p.get('annpreds', [])) + [name]
   return p
 
 
@@ -203,7 +248,8 @@ OPERATORS = [('head_unbound', HeadUnbound), ('cmp_unbound', CmpUnbound),
              ('functor_bad_arg_via_value', FunctorBadArgViaValue),
              ('neg_unbound', NegUnbound), ('drop_distinct', DropDistinct),
              ('inconsistent_distinct', InconsistentDistinct),
-             ('no_base', NoBase), ('functor_bad_arg', FunctorBadArg),
+             ('no_base', NoBase), ('no_base_reader', NoBaseReader),
+             ('functor_bad_arg', FunctorBadArg),
              ('annotate_missing', AnnotateMissing)]
 
 
